@@ -174,7 +174,3 @@ func cmdVC(args []string) {
 	fmt.Printf("%d obligations, %d failed, %.1fs\n", len(res), bad, time.Since(t0).Seconds())
 }
 
-func cmdCheck(args []string) {
-	fmt.Fprintln(os.Stderr, "not implemented yet")
-	os.Exit(2)
-}
